@@ -19,6 +19,7 @@ use crate::gc::{Move, Trace};
 use crate::stack::{ExternState, StackFrame};
 use crate::thread::{
     RootedThread, Status, Thread, ThreadInternal, VmRoot, VmRootInternal, reset_stack_after_error,
+    reset_stack_values,
 };
 use crate::types::{Instruction, VmIndex};
 use crate::value::ExternFunction;
@@ -451,6 +452,7 @@ where
         let vm = self.value.vm();
         let mut context = vm.current_context();
         let level = context.context().stack.stack().get_frames().len();
+        let stack_len = context.context().stack.stack().len();
         context.push(self.value.get_variant());
         $(
             $args.vm_push(&mut context)?;
@@ -462,7 +464,11 @@ where
         let context = match ready!(vm.call_function(cx, context.into_owned(), args)) {
             Ok(context) => context,
             // The failed call must not leave its frames behind
-            Err(err) => return Poll::Ready(Err(reset_stack_after_error(vm, level, err))),
+            Err(err) => {
+                let err = reset_stack_after_error(vm, level, err);
+                reset_stack_values(vm, stack_len);
+                return Poll::Ready(Err(err));
+            }
         };
         let mut context = context.unwrap();
         let result = {
@@ -494,6 +500,7 @@ where
     {
         use crate::thread::Execute;
         let level = self.value.vm().context().frame_level();
+        let stack_len = self.value.vm().context().stack.len();
         match future::lazy(|cx| self.call_first(cx, $($args),*)).await {
             Poll::Ready(result) => result,
             Poll::Pending => {
@@ -501,7 +508,11 @@ where
                 let value = match Execute::new(vm.clone()).await {
                     Ok(value) => value,
                     // The failed call must not leave its frames behind
-                    Err(err) => return Err(reset_stack_after_error(&vm, level, err)),
+                    Err(err) => {
+                        let err = reset_stack_after_error(&vm, level, err);
+                        reset_stack_values(&vm, stack_len);
+                        return Err(err);
+                    }
                 };
                 Self::return_value(value.vm(), value.get_variant())
             }
@@ -573,6 +584,7 @@ where
         let vm = self.value.vm();
         let mut context = vm.current_context();
         let level = context.context().stack.stack().get_frames().len();
+        let stack_len = context.context().stack.stack().len();
         context.push(self.value.get_variant());
 
         let mut arg_count = R::EXTRA_ARGS;
@@ -586,7 +598,11 @@ where
         let context = match ready!(vm.call_function(cx, context.into_owned(), arg_count)) {
             Ok(context) => context,
             // The failed call must not leave its frames behind
-            Err(err) => return Poll::Ready(Err(reset_stack_after_error(vm, level, err))),
+            Err(err) => {
+                let err = reset_stack_after_error(vm, level, err);
+                reset_stack_values(vm, stack_len);
+                return Poll::Ready(Err(err));
+            }
         };
         let mut context = context.unwrap();
         let result = {
